@@ -1,5 +1,26 @@
 """Property -> machinery."""
 PROPS = {
+    "C08": {
+        "x": ["harness.hC08"],
+        "extra": ["harness.pC08.run"],
+        "level": "other",
+        "explanation": "Engine X: the real ExplorerScriptMacro.build/_build_op with SourceMapBuilder on blueprints compiled "
+                       "by the real MacroVisitor (flat, label+jump+return, nested twice), with symbolic op/label counter "
+                       "starts and call position: macro entries, call sites on first ops, return addresses (after every op "
+                       "of the expansion, number of the first op following it), relayed nested entries, private labels; "
+                       "the argument-list handler's position marks with symbolic fields. Enumerated part: F1-F4 programs in "
+                       "3 multi-line layouts compiled by the real compiler and every op's entry compared with the position "
+                       "at which the printer put its statement / condition / header; F5 macro programs incl. imported and "
+                       "transitively imported files in a scratch directory (file names, IncludedUsageMap).",
+        "technique": "CrossHair+z3 on the real macro expansion + source-map builder with symbolic counters/positions; "
+                     "enumerated compile-and-compare against printer-known positions",
+        "level_text": "Macro-entry arithmetic is solver-decided for all counter states/positions within the bounds; the "
+                      "registration of directly written ops (about 10 code paths behind the ANTLR tree) is covered by "
+                      "enumeration over programs x layouts, not by the solver.",
+        "level_note": "Trusted: CrossHair, z3, the position-tracking printer (spec/es_ast.py). Columns in lines with tabs or "
+                      "non-BMP characters are outside the claim.",
+        "assumptions": ["registration of directly written ops enumerated (stub parse trees not built)"],
+    },
     "C16": {
         "x": ["harness.hC16"],
         "extra": ["harness.pC16.run"],
